@@ -868,6 +868,33 @@ Corollary pipeline_language_triple sts :
   end.
 Proof. rewrite pipeline_language. destruct (model_pipeline sts) as [[[a h] f]|]; reflexivity. Qed.
 
+(** ** Histories of calls on one factory *)
+
+(** whatever was created before and is created after, on the same factory: the result for a rule is the
+    specification's, a function of that rule's definition, the default rule and the mode alone *)
+Theorem history_meets_spec proxy def pre r post :
+  scoped_rule r = true ->
+  nth_error (create_history proxy def (pre ++ r :: post)) (length pre) =
+  Some (if r_matchers_ok r then of_opt (spec_rule proxy def r) else Rejected).
+Proof.
+  intro Hs. unfold create_history. rewrite map_app. cbn [map].
+  rewrite nth_error_app2 by (rewrite map_length; apply Nat.le_refl).
+  rewrite map_length, Nat.sub_diag. cbn [nth_error]. rewrite (create_rule_spec _ _ _ Hs). reflexivity.
+Qed.
+
+Corollary history_order_irrelevant proxy def rs1 rs2 r e :
+  In r rs1 -> In r rs2 -> scoped_rule r = true ->
+  (In (r, e) (combine rs1 (create_history proxy def rs1)) <-> In (r, e) (combine rs2 (create_history proxy def rs2))).
+Proof.
+  assert (H : forall rs, In r rs -> (In (r, e) (combine rs (create_history proxy def rs)) <-> e = create_rule proxy def r)).
+  { intros rs. unfold create_history. induction rs as [|x rs IH]; intro Hin; [destruct Hin|].
+    cbn [map combine]. split.
+    - intros [Heq|Hin']; [inversion Heq; reflexivity|].
+      apply in_combine_l in Hin' as Hl. apply IH; assumption.
+    - intro He. destruct Hin as [->|Hin]; [left; rewrite He; reflexivity|]. right. apply IH; assumption. }
+  intros H1 H2 _. rewrite (H rs1 H1), (H rs2 H2). tauto.
+Qed.
+
 (** ** History: finding C14-F1 (repaired by fix: commit 97aaffa) *)
 
 (** the factory of the pinned commit ignored a rule's own backtracking_enabled
